@@ -12,6 +12,9 @@ import (
 	"time"
 
 	"github.com/bool64/cache"
+
+	modela "verifharness/dupa/model"
+	modelb "verifharness/dupb/model"
 )
 
 // C13: Dump followed by Restore reproduces the cache exactly.
@@ -39,6 +42,9 @@ type GobOther struct {
 
 func registerGobTypes() {
 	cache.GobRegister(GobVal{}, GobOther{})
+	// two distinct types with the same package-qualified short name
+	cache.GobRegister(modela.Item{})
+	cache.GobRegister(modelb.Item{})
 }
 
 type snapEntry struct {
@@ -60,7 +66,11 @@ func snapshot(be Backend) (map[string]snapEntry, int, error, []string) {
 }
 
 func randGobValue(rng *rand.Rand, allowNil bool, n int) interface{} {
-	switch rng.Intn(9) {
+	switch rng.Intn(11) {
+	case 9:
+		return modela.Item{A: n + 1}
+	case 10:
+		return modelb.Item{B: fmt.Sprintf("b%d", n)}
 	case 0:
 		if allowNil {
 			return nil
